@@ -329,7 +329,10 @@ def sched_stage(prop, P, tags, tier, seed, replay, wdir, S, F):
             impl_only = pre.endswith("_na")
             model = impl if impl_only else split_cases(open(pre + ".model").read().splitlines())
         except OSError as e:
-            log("missing", pre, e); continue
+            # a shard whose harness run died (no output files) is a broken correspondence, never silently skipped
+            log("missing", pre, e)
+            mism.append({"stream": pre, "case": -1, "line": 0, "impl": f"<the sched harness died or wrote no output: {e}>", "model": "<n/a>", "case_lines": []})
+            continue
         cases = [[l for l in c if l.strip() and not l.startswith("#")] for c in cases]
         cases = [c for c in cases if c]
         races = hb_races(pre + ".impl") if ("C12" in tags and not impl_only) else []
